@@ -207,8 +207,10 @@ func analyseCoilPacking(c *Ctx, fn *ssa.Function) packInfo {
 	pi.j = fr.useIn(ji, st, "coil index")
 	pi.idx = fr.useIn(di, st, "byte index")
 	pi.sh = fr.useIn(si, st, "bit index")
-	if len(pi.j.terms) == 1 && pi.j.c == 0 && pi.j.terms[0].k == 1 {
-		pi.jKey = pi.j.terms[0].s.key
+	if len(pi.j.terms) == 1 && pi.j.terms[0].k == 1 {
+		// the coil index as the engine prints it (a plain counter, or counter+1 for `range` loops):
+		// positions are compared as functions of this expression
+		pi.jKey = pi.j.String()
 	}
 	// loop coverage: coils[j] is tested for every j in 0..len(coils)-1
 	for b := blk; b != nil; b = b.Idom() {
